@@ -48,7 +48,28 @@ func (e *Engine) callValue(st *State, c *ssa.CallCommon, fv Val, args []Val, pos
 	e.callOpaque(st, c, fv, args, pos, k)
 }
 
+// fnValueName: the source-level name of a function-typed variable that is being called (parameter, captured variable or local).
+func fnValueName(v ssa.Value) string {
+	switch x := v.(type) {
+	case *ssa.Parameter:
+		return x.Name()
+	case *ssa.FreeVar:
+		return x.Name()
+	case *ssa.Alloc:
+		return x.Comment
+	case *ssa.UnOp:
+		if x.Op == token.MUL {
+			return fnValueName(x.X)
+		}
+	}
+	return ""
+}
+
 func (e *Engine) callOpaque(st *State, c *ssa.CallCommon, fv Val, args []Val, pos token.Pos, k Kont) {
+	if n := fnValueName(c.Value); n != "" {
+		// call-site clauses can name a call through a function-typed variable as "fn:<variable>"
+		e.checkCallSites(st, "fn:"+n, c.Signature(), nil, args, pos)
+	}
 	tb := e.tb
 	e.oblige(st, "nil", "", pos, tb.Neq(fv.T[0], tb.Int(0)), "call of nil function value")
 	sig := c.Signature()
@@ -895,6 +916,12 @@ func (e *Engine) checkCallSitesFrame(st *State, fr *Frame, calleeKey string, sig
 		for j := range on {
 			if j < len(fr.Params) {
 				env[on[j]] = specBind{fr.Params[j], ot[j]}
+			}
+		}
+		// captured variables of a closure (references to the variables)
+		for _, fv := range fr.Fn.FreeVars {
+			if v, ok := fr.Regs[fv]; ok {
+				env[fv.Name()] = specBind{v, fv.Type()}
 			}
 		}
 		for j := range names {
